@@ -265,6 +265,9 @@ class CallTracer:
         self.logger = logger
         self.traces: Dict[FrameType, CallTrace] = {}
         self.sample_rate = sample_rate
+        # A generator of our own: drawing from the `random` module's shared one
+        # would change the numbers a (seeded) traced program gets from it.
+        self._random = random.Random()
         # Keyed by id(code): co_filename is not part of code equality, so identical
         # functions of two files (a vendored copy of a module, say) have equal code
         # objects and would share one entry. The entry keeps the code object alive,
@@ -286,7 +289,7 @@ class CallTracer:
             # of a generator's life, with whatever its parameters are bound to
             # by then; if the call is being traced there is nothing to do.
             return
-        if self.sample_rate and random.randrange(self.sample_rate) != 0:
+        if self.sample_rate and self._random.randrange(self.sample_rate) != 0:
             return
         func = self._get_func(frame)
         if func is None:
